@@ -122,6 +122,7 @@ class Ctx(object):
         self.tier = tier
         self.config = config
         apply_adt_moves(facts)
+        apply_variant_shapes(facts)
         apply_aliases(facts)
         apply_field_aliases(facts)
         self.fns = {}
@@ -667,6 +668,90 @@ def apply_adt_moves(facts):
     facts.clear()
     facts.update(out)  # in place: the fact set is shared by every property evaluated on it
     return facts
+
+
+def apply_variant_shapes(facts):
+    """An enum variant of the oracle vocabulary that had positional fields and now has named fields of the same types in
+    the same order (or the reverse) only had its fields labelled: read its patterns, literals and field accesses positionally,
+    as the tables do. Done once per fact set, in place."""
+    meta = facts.setdefault('meta', {})
+    if meta.get('variant_shapes') is not None:
+        return meta['variant_shapes']
+    meta['variant_shapes'] = {}
+    try:
+        with open(os.path.join(VERIF, 'spec', 'vocabulary_adts.json')) as fh:
+            vocab = json.load(fh)
+    except (IOError, ValueError):
+        return {}
+    relabel = {}   # variant path -> [field names in declared order]
+    flatten = set()  # variants whose named fields stand for the components of one tuple payload
+    for a in facts['adts']:
+        ap = S.norm_path(a['path'])
+        if a.get('cfg_test') or ap not in vocab or not a.get('is_enum'):
+            continue
+        old = {v[0]: v[1] for v in vocab[ap][1]}
+        for v in adt_shape(a)[1]:
+            name, flds = v
+            was = old.get(name)
+            if was is None or len(was) != len(flds) or not flds:
+                continue
+            positional_before = all(f[0] == str(i) for i, f in enumerate(was))
+            named_now = all(not f[0].isdigit() for f in flds)
+            if positional_before and named_now and [f[1] for f in was] == [f[1] for f in flds]:
+                relabel['%s::%s' % (ap, name)] = [f[0] for f in flds]
+        for v in adt_shape(a)[1]:
+            # `V((A, B))` -> `V { a: A, b: B }`: the one tuple payload spread over named fields
+            name, flds = v
+            was = old.get(name)
+            if was is not None and len(was) == 1 and was[0][0] == '0' and was[0][1].startswith('(') and flds and all(not f[0].isdigit() for f in flds):
+                parts = H._generic_args('T<' + was[0][1][1:-1] + '>')
+                if parts == [f[1] for f in flds] and len(parts) >= 2:
+                    relabel['%s::%s' % (ap, name)] = [f[0] for f in flds]
+                    flatten.add('%s::%s' % (ap, name))
+    if not relabel:
+        return {}
+    for a in facts['adts']:
+        ap = S.norm_path(a['path'])
+        for v in a.get('variants') or []:
+            order = relabel.get('%s::%s' % (ap, v['name']))
+            if order and '%s::%s' % (ap, v['name']) in flatten:
+                v['fields'] = [{'name': '0', 'ty': '(%s)' % ', '.join(f['ty'] for f in v['fields']), 'vis': v['fields'][0].get('vis')}]
+            elif order:
+                for i, f in enumerate(v['fields']):
+                    f['name'] = str(i)
+
+    def fix(n):
+        if isinstance(n, dict):
+            k = n.get('k')
+            vp = S.norm_path((n.get('res') or {}).get('path') or '') if isinstance(n.get('res'), dict) else None
+            order = relabel.get(vp) if vp else None
+            if order and k == 'PStruct':
+                given = {nm: pt for nm, pt in n.get('fields', [])}
+                n['k'] = 'PTupleStruct'
+                n['res'] = dict(n['res'], dk='Ctor(Variant,Fn)')
+                n['pats'] = [given.get(nm, {'k': 'Wild'}) for nm in order]
+                if vp in flatten:
+                    n['pats'] = [{'k': 'PTuple', 'pats': n['pats'], 'dd': None}]
+                n['dd'] = None
+                n.pop('fields', None)
+                n.pop('rest', None)
+            elif order and k == 'Struct' and n.get('base') is None and set(nm for nm, _ in n.get('fields', [])) == set(order):
+                given = {nm: e for nm, e in n['fields']}
+                n['k'] = 'Call'
+                n['f'] = {'k': 'Def', 'dk': 'Ctor(Variant,Fn)', 'path': n['res']['path'], 'ty': ''}
+                n['args'] = [given[nm] for nm in order]
+                if vp in flatten:
+                    n['args'] = [{'k': 'Tup', 'es': n['args'], 'ty': '(%s)' % ', '.join((e.get('ty') or '_') for e in n['args']), 'sp': n.get('sp')}]
+                n.pop('fields', None)
+                n.pop('res', None)
+            for v in list(n.values()):
+                fix(v)
+        elif isinstance(n, list):
+            for v in n:
+                fix(v)
+    fix(facts['fns'])
+    meta['variant_shapes'] = relabel
+    return relabel
 
 
 def apply_field_aliases(facts):
